@@ -1,5 +1,6 @@
 import Proofs.XRealArith
 import Model.T4Spec
+import Proofs.T4SpecTie
 import Mathlib.Data.List.Pairwise
 import Mathlib.Tactic.Linarith
 /-!
@@ -8,7 +9,8 @@ import Mathlib.Tactic.Linarith
 Model: `Model/T4Spec.lean` (assembly of a spectrum response from the grammar's tokens, conversion to a dataset).
 Proved here: the error formula (exact arithmetic) and the orientation step shared by the four axes — deciding that a
 grid was printed decreasing, and reversing bins and cells together, yields strictly increasing edges with every printed
-group still attached to its own score.  PARTIAL: the composition over the time / mu / phi axes inside `convert`, the
+group still attached to its own score.  `convert_energy_axis` ties these statements to the executable model `convert` for responses with the energy
+axis only.  PARTIAL: the composition over the time / mu / phi axes inside `convert`, the
 pyparsing grammar, the mesh / Green bands / IFP / keff builders and the Apollo3 reader are covered by the
 correspondence (bit-exact unit level, ground-truth end to end), not by theorems.
 -/
@@ -236,5 +238,96 @@ theorem energy_score_attached {β : Type} (rows : List (ℝ × ℝ × β)) (hne 
     rw [min_eq_left (le_of_lt this), max_eq_right (le_of_lt this)]; exact ⟨h1, h2⟩
   · have := hlt _ _ h1 h2
     rw [min_eq_right (le_of_lt this), max_eq_left (le_of_lt this)]; exact ⟨h1, h2⟩
+
+end T4Spec
+
+namespace T4Spec
+open XReal
+
+/-! ### the executable model `convert` performs exactly this step (energy axis only) -/
+
+theorem edges_eq {β : Type} (g : List (ℝ × ℝ × β)) (hne : g ≠ []) :
+    edges g = g.map (·.1) ++ [(g.getLast hne).2.1] := by
+  induction g with
+  | nil => exact absurd rfl hne
+  | cons a rest ih =>
+    cases rest with
+    | nil => rfl
+    | cons b r =>
+      show a.1 :: edges (b :: r) = _
+      rw [ih (by simp)]
+      simp
+
+/-- the rows of a response, as the model takes them -/
+def rowsOf (g : List (ℝ × ℝ × Row XReal)) : List (Row XReal) := g.map fun p => p.2.2
+
+/-- the printed bounds of every line are the bounds of its row -/
+def Bounds (g : List (ℝ × ℝ × Row XReal)) : Prop := ∀ p ∈ g, p.2.2.lo = fin p.1 ∧ p.2.2.hi = fin p.2.1
+
+theorem rowsOK_of_contig (g : List (ℝ × ℝ × Row XReal)) (hb : Bounds g) (hc : Contig g) : RowsOK (rowsOf g) := by
+  unfold rowsOf
+  induction g with
+  | nil => trivial
+  | cons a rest ih =>
+    cases rest with
+    | nil => trivial
+    | cons b r =>
+      refine ⟨?_, ih (fun p hp => hb p (by simp [hp])) hc.2⟩
+      show XReal.beq b.2.2.lo a.2.2.hi = true
+      rw [(hb b (by simp)).1, (hb a (by simp)).2]
+      simp [XReal.beq, hc.1]
+
+theorem orientL_map {β γ : Type} (b : Bool) (f : β → γ) (l : List β) : orientL b (l.map f) = (orientL b l).map f := by
+  cases b <;> simp [orientL, List.map_reverse]
+
+theorem decreasing_fin (l : List ℝ) :
+    decreasing (l.map fin) = match l with | x :: y :: _ => decide (y < x) | _ => false := by
+  cases l with
+  | nil => rfl
+  | cons x r =>
+    cases r with
+    | nil => rfl
+    | cons y r2 => show XReal.lt (fin y) (fin x) = _; rw [lt_fin_fin]
+
+/-- **the model's `convert`, on a response with the energy axis only, returns exactly the oriented edges and the oriented
+rows**: so `energy_bins_increasing` and `energy_score_attached` are statements about what the executable model — the one
+compared with `convert_spectrum` on every run — computes -/
+theorem convert_energy_axis (g : List (ℝ × ℝ × Row XReal)) (hne : g ≠ []) (hb : Bounds g) (hc : Contig g) :
+    ∃ sp, convert [⟨none, none, none, rowsOf g, none⟩] = .ok sp ∧
+      sp.ebins = (orient g).1.map fin ∧ sp.cells = (orient g).2.map some ∧
+      sp.nt = 1 ∧ sp.nmu = 1 ∧ sp.nphi = 1 ∧ sp.integ = none := by
+  have hne' : rowsOf g ≠ [] := by unfold rowsOf; simpa using hne
+  obtain ⟨sp, hsp, _, h2, h3, h4, h5, h6, _, _, _, h10⟩ := convert_single (rowsOf g) hne' (rowsOK_of_contig g hb hc)
+  have hL : (rowsOf g).map (fun r => r.lo) ++ [((rowsOf g).getLast hne').hi] = (edges g).map fin := by
+    rw [edges_eq g hne, List.map_append]
+    unfold rowsOf
+    rw [List.map_map, List.map_map]
+    congr 1
+    · apply List.map_congr_left
+      intro p hp; exact (hb p hp).1
+    · have : (g.map fun p : ℝ × ℝ × Row XReal => p.2.2).getLast (by simpa using hne) = (g.getLast hne).2.2 := by
+        rw [List.getLast_map]
+      rw [this, (hb _ (List.getLast_mem hne)).2]; rfl
+  have hcells : (orient g).2 = orientL (match edges g with | x :: y :: _ => decide (y < x) | _ => false) (rowsOf g) := by
+    unfold orient orientL rowsOf
+    cases he : edges g with
+    | nil => rfl
+    | cons x r =>
+      cases r with
+      | nil => rfl
+      | cons y r2 => simp only; by_cases hlt : y < x <;> simp [hlt]
+  have hedges : (orient g).1 = orientL (match edges g with | x :: y :: _ => decide (y < x) | _ => false) (edges g) := by
+    unfold orient orientL
+    cases he : edges g with
+    | nil => rfl
+    | cons x r =>
+      cases r with
+      | nil => rfl
+      | cons y r2 => simp only; by_cases hlt : y < x <;> simp [hlt]
+  rw [hL] at h5 h6
+  rw [decreasing_fin] at h5 h6
+  refine ⟨sp, hsp, ?_, ?_, h2, h3, h4, h10⟩
+  · rw [h5, hedges, orientL_map]
+  · rw [h6, hcells]
 
 end T4Spec
